@@ -88,6 +88,20 @@ func (n *Node) String() string {
 	return sb.String()
 }
 
+// snapshot is a deep copy of the node (its wire content at this moment).
+func (n *Node) snapshot() *Node {
+	if n == nil {
+		return nil
+	}
+	c := *n
+	c.Writes = append([]string(nil), n.Writes...)
+	c.Children = nil
+	for _, ch := range n.Children {
+		c.Children = append(c.Children, &Child{N: ch.N.snapshot(), Repeat: ch.Repeat})
+	}
+	return &c
+}
+
 // symEnv is the calling context of an interpreted function.
 type symEnv struct {
 	subst     map[string]string // "$0" -> caller expression
@@ -901,7 +915,11 @@ func (f *frame) call(x *ssa.Call, k *an.Walk) {
 		if child == nil {
 			child = &Node{Opaque: f.sym(cc.Args[1])}
 		}
-		parent.Children = append(parent.Children, &Child{N: child, Repeat: f.curLoop(k)})
+		// ber.(*Packet).AppendChild copies the child's encoding into the parent's
+		// Data at the time of the call (p.Data.Write(child.Bytes())): what reaches
+		// the wire is the child as it is NOW; content given to the child afterwards
+		// (Data.Write, further AppendChild) is not transmitted. Model: snapshot.
+		parent.Children = append(parent.Children, &Child{N: child.snapshot(), Repeat: f.curLoop(k)})
 		return
 	case "bytes.(*Buffer).Write", "bytes.(*Buffer).WriteString":
 		// x.Data.Write(b)
